@@ -791,6 +791,9 @@ class ExprMixin:
                 sink.append((st.assume(z3.Not(present)), Exc(KeyError)))
             yield (st.assume(present) if code else st), V(t.val, z3.Select(t.vals(base.z), k))
             return
+        if isinstance(t, T.MapT):
+            yield st, V(t.val, z3.Select(base.z, self.coerce(idx, t.key, n).z))
+            return
         if isinstance(t, T.ListT):
             i = self.coerce(idx, T.INT, n).z
             ln = z3.Length(base.z)
@@ -963,6 +966,9 @@ class ExprMixin:
                 st2 = self.bind_target(g.target, self.iter_elem(coll, V(ety, x), st1), st1, n)
                 gs = [member(x)] + ([inv] if inv is not None else [])
                 st2 = st2.assume(*gs) if st.mode != "spec" else st2
+                if st.mode == "spec":
+                    nms = tuple(x_.id for x_ in ast.walk(g.target) if isinstance(x_, ast.Name))
+                    st2 = st2.set_meta("spec_bound", tuple(st2.meta.get("spec_bound", ())) + nms)
 
                 def conds(j, st3, acc):
                     if j == len(g.ifs):
@@ -1032,7 +1038,7 @@ class ExprMixin:
         raise Unsupported("walrus", n)
 
     # ------------------------------------------------------------------ feasibility pruning
-    def feasible(self, st, cond, timeout_ms=1500):
+    def feasible(self, st, cond, timeout_ms=300):
         """False only when pc ∧ cond is definitely unsatisfiable (sound pruning)"""
         if z3.is_false(cond):
             return False
